@@ -286,7 +286,7 @@ def cases(tier, seed):
         yield {"seed": rnd.randrange(1 << 30), "n": rnd.randint(1, 40)}
 
 
-def run_one(gen, ai, steps, strides=(8, 10, 9)):
+def run_one(gen, ai, steps, strides=(8, 10, 9), hs_push=None):
     """Run the abstract script on one generation; returns per-step results.
     strides: AT5 record lengths (zone status, AC status, timer status) of this console."""
     inst = compile_installation(gen, ai)
@@ -294,9 +294,19 @@ def run_one(gen, ai, steps, strides=(8, 10, 9)):
     status = {}
 
     async def main(loop, net, log):
+        pushed = []
+
+        def extra(step, con):
+            # the console reports a changed AC status of its own accord while the handshake
+            # is still under way (once, in front of the answer of the given step)
+            if hs_push and not pushed and step == hs_push[0]:
+                pushed.append(1)
+                return [step_frame(gen, con, ["ac_status", hs_push[1]])]
+            return []
         w = AW.ApiWorld(gen, loop, net, log, inst,
                         C.Knobs(apply_commands=False, stride_zone=strides[0],
-                                stride_ac=strides[1], stride_timer=strides[2]))
+                                stride_ac=strides[1], stride_timer=strides[2],
+                                extra=extra if hs_push else None))
         ok = await w.init()
         status["init"] = ok
         if ok is not True:
@@ -350,10 +360,17 @@ def run_case(case):
     ai = abstract_installation(rnd)
     steps = gen_steps(rnd, ai, case["n"])
     viol, obs = [], {}
-    r4, s4 = run_one(4, ai, steps)
+    hs_push = None
+    if rnd.random() < 0.3:
+        nacs = len(ai["acs"])
+        hs_push = (rnd.choice(["timer_status_request", "zone_status_request",
+                               "ac_status_request", "ability_request"]),
+                   [abstract_ac(rnd, a) for a in rnd.sample(range(nacs), rnd.randint(1, nacs))])
+        obs["unsolicited_status_during_the_handshake"] = 1
+    r4, s4 = run_one(4, ai, steps, hs_push=hs_push)
     # (an AT5 console of a later firmware announces longer records)
     strides = (rnd.choice([8, 8, 10]), rnd.choice([10, 10, 8, 12]), rnd.choice([9, 9, 11, 12]))
-    r5, s5 = run_one(5, ai, steps, strides)
+    r5, s5 = run_one(5, ai, steps, strides, hs_push=hs_push)
     if strides != (8, 10, 9):
         obs["at5_records_longer_or_shorter_than_usual"] = 1
     if s4.get("init") is not True or s5.get("init") is not True or s4["loop"] != "ok" \
